@@ -246,6 +246,8 @@ structure St where
   /-- the file-level loads of the section so far (one process): UseEnv of the previous call -/
   prevEnv : Option Bool := none
   nFload : Nat := 0
+  /-- every decoding op of the section so far with its observation: the same op later must observe the same -/
+  seen : List (String × String) := []
 
 mutual
 /-- the type lies in the modelled family: every pointer is a one-level pointer to a primitive or to a struct.
@@ -622,6 +624,16 @@ def runSection (r : Report) (s : Section) : Report := Id.run do
   let mut r := r
   for l in s.lines do
     r := { r with ops := r.ops + 1 }
+    -- **a load is a function of its own arguments**: the same op earlier in this process observed the same
+    if l.op.head? = some "munm" ∨ l.op.head? = some "load" ∨ l.op.head? = some "fload" then
+      let key := joinSp l.op
+      let ob := joinSp (dropAL l.obs)
+      match st.seen.find? (fun p => p.1 = key) with
+      | some p =>
+        r := r.addCover "repeat-same-call-checked"
+        if p.2 ≠ ob ∧ ¬ (ob.splitOn "nondet").length > 1 then
+          r := r.violation s.idx l.idx s!"load-depends-on-earlier-calls class=sequence op=[{key}] first=[{p.2}] now=[{ob}]"
+      | none => st := { st with seen := (key, ob) :: st.seen }
     match l.op with
     | ["type", t] =>
       match parseTyTok t with
@@ -684,5 +696,6 @@ def runSection (r : Report) (s : Section) : Report := Id.run do
   return r
 
 def driver (secs : List Section) : Report := secs.foldl runSection {}
+
 
 end GoZero.C17
